@@ -75,9 +75,9 @@ ALL_OPS = onestep.PRIMS + onestep.OBSERVERS + onestep.COMPOSITES
 @prop('C01')
 def c01(tier, seed):
     from . import overlay
-    plan = [('UO3', 2, dict(ncfg=40 if tier == 'quick' else None, k1_ops=overlay.HIST_OPS + overlay.OBS_OPS, k2=6 if tier == 'quick' else 40, recreate=1, tag='C01'))]
-    if tier != 'quick':
-        plan.append(('UO3', 3, dict(ncfg=200, k1_ops=overlay.HIST_OPS, k2=6, tag='C01')))
+    plan = [('UO3', 2, dict(ncfg=40 if tier == 'quick' else None, k1_ops=overlay.HIST_OPS + overlay.OBS_OPS, k2=6 if tier == 'quick' else 40, recreate=1, tag='C01')),
+            ('UO3', 3, dict(ncfg=40 if tier == 'quick' else 200, k1_ops=overlay.HIST_OPS + ['read_dir'], k2=0 if tier == 'quick' else 6, tag='C01')),
+            ('UO3', 2, dict(ncfg=30 if tier == 'quick' else 150, k1_ops=overlay.HIST_OPS + ['read_dir'], layer_kind='memsub', tag='C01'))]
     from . import transfer
     # copy/move with a source of the right type are calls of the contract too (parent of the destination a directory, ...)
     tc = transfer.transfer_cases(['same_mem', 'same_alt'] if tier == 'quick' else ['same_mem', 'same_alt', 'two_mem', 'same_ovl', 'same_altalt'], ['C01'], tier, seed)
@@ -94,7 +94,9 @@ def c03(tier, seed):
     plan = [('UO3', 2, dict(ncfg=60 if tier == 'quick' else None, k1_ops=overlay.HIST_OPS, k2=6 if tier == 'quick' else 60, k3=2 if tier == 'quick' else 20, removal_first=True)),
             ('UOW', 2, dict(ncfg=60 if tier == 'quick' else 400, k1_ops=['remove_file', 'remove_dir', 'remove_dir_all'], k2=4 if tier == 'quick' else 20, removal_first=True, then_parent=True)),
             ('UOD', 2, dict(ncfg=50 if tier == 'quick' else None, k1_ops=['remove_dir', 'remove_dir_all', 'remove_file'], k2=2 if tier == 'quick' else 20, removal_first=True)),
-            ('USYM', 2, dict(ncfg=30 if tier == 'quick' else None, k1_ops=['remove_dir', 'remove_dir_all', 'remove_file', 'create_dir_all', 'write'], k2=3 if tier == 'quick' else 30, removal_first=True, then_parent=True))]
+            ('USYM', 2, dict(ncfg=30 if tier == 'quick' else None, k1_ops=['remove_dir', 'remove_dir_all', 'remove_file', 'create_dir_all', 'write'], k2=3 if tier == 'quick' else 30, removal_first=True, then_parent=True)),
+            ('UO3', 2, dict(ncfg=30 if tier == 'quick' else 150, k1_ops=overlay.HIST_OPS, layer_kind='memsub')),
+            ('UO3', 3, dict(ncfg=30 if tier == 'quick' else 150, k1_ops=['remove_dir', 'remove_dir_all', 'write', 'create_dir']))]
     if tier != 'quick':
         plan += [('UO3', 3, dict(ncfg=300, k1_ops=overlay.HIST_OPS, k2=10, removal_first=True)), ('UO4', 2, dict(ncfg=300, k1_ops=overlay.HIST_OPS, k2=10, removal_first=True))]
     from . import transfer
@@ -180,7 +182,7 @@ def c06(tier, seed):
                 cases.append({'la': la, 'lb': lb})
     cases.sort(key=lambda c: -(c['la'] * 10 + c['lb']))
     ck.bounds = {'arg_len': '0..%d bytes' % la_max, 'base_len': '0..%d bytes (canonical by assumption; results asserted canonical)' % lb_max,
-                 'alphabet': "'/', '.', 'a', 'b', backslash, U+00E9 (C3 A9); every byte a solver variable"}
+                 'alphabet': "'/', '.', 'a', 'b', backslash, space, U+00E9 (C3 A9); every byte a solver variable"}
     ck.add(run_cases(prog, mod.run_case, cases), 'join/parent/filename/extension/root/is_root/== on symbolic base and argument strings')
     ck.assumptions = COMMON_ASSUMPTIONS[:2] + ['base paths are canonical (inductive: every Ok result of join is asserted canonical)',
                                                 'characters other than / and . are represented by a, b and one two-byte character']
@@ -475,7 +477,8 @@ def c05(tier, seed):
     from . import overlay, handles
     plan = [('UO3', 2, dict(ncfg=50 if tier == 'quick' else None, k1_ops=overlay.HIST_OPS, k2=3 if tier == 'quick' else 30, recreate=1)),
             ('UOW', 2, dict(ncfg=30 if tier == 'quick' else 300, k1_ops=['remove_file', 'remove_dir_all', 'write'], k2=2 if tier == 'quick' else 10)),
-            ('USYM', 2, dict(ncfg=20 if tier == 'quick' else None, k1_ops=overlay.HIST_OPS, k2=2 if tier == 'quick' else 20))]
+            ('USYM', 2, dict(ncfg=20 if tier == 'quick' else None, k1_ops=overlay.HIST_OPS, k2=2 if tier == 'quick' else 20)),
+            ('UO3', 2, dict(ncfg=25 if tier == 'quick' else 150, k1_ops=overlay.HIST_OPS, layer_kind='memsub'))]
     if tier != 'quick':
         plan.append(('UO3', 3, dict(ncfg=200, k1_ops=overlay.HIST_OPS, k2=5)))
     from . import transfer
@@ -565,7 +568,7 @@ def c07(tier, seed):
         for sh in shs[:: (6 if tier == 'quick' else 1)]:
             cases.append({'universe': u.tag, 'P': P, 'shape': sh, 'ops': ['write', 'append', 'remove_file', 'remove_dir', 'remove_dir_all', 'create_dir', 'create_dir_all', 'read'], 'hostile': True})
     ck.add(run_cases(prog, altroot.run_confine_case, cases), 'exactness and confinement: every op on every path (and through hostile join strings) from every well-formed state')
-    ck.bounds = {'kernel': '|P| <= %d, |q| <= %d bytes, alphabet {/ . a b backslash U+00E9}' % (lp_max, lq_max), 'altroot_dirs': Ps, 'universe': u.tag,
+    ck.bounds = {'kernel': '|P| <= %d, |q| <= %d bytes, alphabet {/ . a b backslash space U+00E9}' % (lp_max, lq_max), 'altroot_dirs': Ps, 'universe': u.tag,
                  'hostile_join_strings': altroot.HOSTILE, 'physical': 'PhysicalFS::get_path on |q| <= %d bytes over the OS model (symlinks aside); operations of PhysicalFS on the real kernel are not encoded' % (6 if tier == 'quick' else 8)}
     ck.assumptions = COMMON_ASSUMPTIONS + ['the path API only hands canonical paths to a backend (checked by C06); calling the FileSystem trait of an altroot directly with a non-canonical string is outside']
     ck.rule = 'a state = (P, well-formed tree in the altroot view, entries beside and above P); transitions = call paths; kernel: (|P|,|q|) classes with symbolic bytes'
